@@ -394,13 +394,13 @@ theorem smithSchwartz_sim {q q' : Profile} (hq : CanonP q) (hqq : q'.Perm (renPr
   have := smithSchwartz_perm (r2c_sim σ hσ hq hqq) (nodup_keys_r2c q') ties
   rwa [smithSchwartz_ren σ hσ] at this
 
-theorem eliminateOne_sim {q q' : Profile} (hq : CanonP q) (hqq : q'.Perm (renProfileH σ q)) :
-    ExceptEquiv SlotsEquiv (eliminateOne q') ((eliminateOne q).map (List.map (renSlot σ))) := by
+theorem eliminateOneRaw_sim {q q' : Profile} (hq : CanonP q) (hqq : q'.Perm (renProfileH σ q)) :
+    ExceptEquiv SlotsEquiv (eliminateOneRaw q') ((eliminateOneRaw q).map (List.map (renSlot σ))) := by
   have ht : (firstPrefTotals q').Perm (renVotes σ (firstPrefTotals q)) :=
     (firstPrefTotals_perm hqq).trans (firstPrefTotals_ren_perm σ hσ hq)
   have hl : (firstPrefTotals q').length = (firstPrefTotals q).length := by
     rw [ht.length_eq]; unfold renVotes; rw [List.length_map]
-  unfold eliminateOne
+  unfold eliminateOneRaw
   simp only
   rw [hl]
   match (firstPrefTotals q).length with
@@ -410,6 +410,30 @@ theorem eliminateOne_sim {q q' : Profile} (hq : CanonP q) (hqq : q'.Perm (renPro
     have := getNBest_perm _ _ ht (m + 1)
     rw [getNBest_rename] at this
     exact this
+
+omit hσ in
+theorem anyTie_map_ren (r : List Slot) : (r.map (renSlot σ)).any isTie = r.any isTie := by
+  rw [List.any_map]
+  congr 1
+  funext s
+  cases s <;> rfl
+
+/-- `eliminate_one` with its refusal of a tied elimination (fix 30bd79e) -/
+theorem eliminateOne_sim {q q' : Profile} (hq : CanonP q) (hqq : q'.Perm (renProfileH σ q)) :
+    ExceptEquiv SlotsEquiv (eliminateOne q') ((eliminateOne q).map (List.map (renSlot σ))) := by
+  have hr := eliminateOneRaw_sim σ hσ hq hqq
+  unfold eliminateOne
+  cases h1 : eliminateOneRaw q' <;> cases h2 : eliminateOneRaw q <;> rw [h1, h2] at hr
+  · exact hr
+  · exact hr.elim
+  · exact hr.elim
+  · rename_i r' r
+    have hr' : SlotsEquiv r' (r.map (renSlot σ)) := hr
+    simp only
+    rw [length_equiv hr', anyTie_equiv hr', anyTie_map_ren, List.length_map]
+    split
+    · exact rfl
+    · exact hr'
 
 omit hσ in
 theorem slotCands_map_ren (r : List Slot) : slotCands (r.map (renSlot σ)) = (slotCands r).map σ := by
@@ -490,8 +514,18 @@ theorem tierCont_sim (smith : Bool) (f : Nat)
         exact ih _ _ hcan hp
       match r', r, he', hl, hrec with
       | [], [], _, _, hrec => exact hrec
-      | [s₁], [s₂], he', _, _ => exact he'
-      | a :: b :: t, c :: d :: t', _, _, hrec => exact hrec
+      | [s₁], [s₂], he', _, _ =>
+        have he'' : SlotsEquiv [s₁] [renSlot σ s₂] := he'
+        cases s₂ with
+        | cand c =>
+          rcases slotsEquiv_singleton he'' with ⟨c', rfl, _⟩ | ⟨T₁, T₂, _, hT, _⟩
+          · exact he'
+          · simp [renSlot] at hT
+        | tie T =>
+          rcases slotsEquiv_singleton he'' with ⟨c', _, hc'⟩ | ⟨T₁, T₂, rfl, _, _⟩
+          · simp [renSlot] at hc'
+          · exact rfl
+      | a :: b :: t, c :: d :: t', _, _, hrec => cases a <;> cases c <;> exact hrec
       | [], _ :: _, _, hl, _ => simp at hl
       | [_], [], _, hl, _ => simp at hl
       | [_], _ :: _ :: _, _, hl, _ => simp at hl
@@ -538,7 +572,21 @@ theorem tidemanTier_sim (smith : Bool) : ∀ (f : Nat) (rv rv' : Profile), Canon
     by_cases hE : rv.isEmpty = true
     · rw [if_pos hE, if_pos hE]; exact rfl
     · rw [if_neg hE, if_neg hE]
-      exact tierSel_sim σ hσ smith f ih hc hr (smithSchwartz_sim σ hσ hc hr smith)
+      have hS := smithSchwartz_sim σ hσ hc hr smith
+      have hSe : (smithSchwartz (rankedToCondorcet rv') smith).isEmpty = (smithSchwartz (rankedToCondorcet rv) smith).isEmpty := by
+        cases h3 : smithSchwartz (rankedToCondorcet rv) smith with
+        | nil => rw [h3] at hS; rw [hS.eq_nil]
+        | cons a l =>
+          cases h4 : smithSchwartz (rankedToCondorcet rv') smith with
+          | nil => rw [h3, h4] at hS; exact absurd hS.nil_eq.symm (by simp)
+          | cons b l' => rfl
+      have hset : (tierSet smith rv').Perm ((tierSet smith rv).map σ) := by
+        unfold tierSet
+        rw [hSe]
+        split
+        · exact (allRanked_perm hr).trans (allRanked_ren_perm σ hσ hc)
+        · exact hS
+      exact tierSel_sim σ hσ smith f ih hc hr hset
 
 /-- the lone-candidate test of the repaired evaluators commutes with the renaming -/
 theorem lone_ren {rv rv' : Profile} (hc : CanonP rv) (hr : rv'.Perm (renProfileH σ rv)) :
